@@ -92,7 +92,11 @@ pub fn main(args: &[String]) {
                 return Err(("header-layers-differ".into(), format!("header {:#04b}, configured comp={c} enc={e}", h.layers)));
             }
             if e && h.wrapped.len() != geti(b, "nkeys") as usize {
-                return Err(("recipients-differ".into(), format!("{} wrapped keys, {} recipients configured", h.wrapped.len(), geti(b, "nkeys"))));
+                // (the same public key may have been added twice: wrapping it once would be as good - not a verdict)
+                mism.push(("recipients-differ".into(), format!("{} wrapped keys, {} keys added", h.wrapped.len(), geti(b, "nkeys"))));
+                if h.wrapped.is_empty() {
+                    return Err(("encrypted-for-nobody".into(), "no wrapped key in the header".into()));
+                }
             }
             if !e && find(&bytes, &content[..64]) != !c {
                 mism.push(("plaintext-visibility".into(), "content visible/hidden unlike the layers announce".into()));
